@@ -70,7 +70,9 @@ impl Tree {
             }
             Tree::Raders(i) => lcm(lcm(8, own), i.grid()),
             Tree::Bluesteins(n, i) => lcm(lcm(8, 2 * (*n).max(1) as u64), i.grid()),
-            Tree::RadixN(_, b) | Tree::Radix4(_, b) | Tree::Radix3(_, b) => lcm(lcm(8, own), b.grid()),
+            Tree::RadixN(_, b) | Tree::Radix4(_, b) => lcm(lcm(8, own), b.grid()),
+            // Radix3 always constructs a Butterfly3 (its constants are decoded even when k = 0 and it is never used)
+            Tree::Radix3(_, b) => lcm(lcm(24, own), b.grid()),
         }
     }
     pub fn depth(&self) -> usize {
